@@ -44,8 +44,7 @@ let print_qevs b evs =
     | QKe k -> Buffer.add_string b (match k with KWould -> " Kw" | KFail -> " Kf" | _ -> " Kx")
     | QS r -> Buffer.add_string b (" S" ^ string_of_z r)
     | QW -> Buffer.add_string b " W" | QZ -> Buffer.add_string b " Z"
-    | QC c -> Buffer.add_string b (if c then " C1" else " C0")
-    | QPart _ -> ()) evs
+    | QC c -> Buffer.add_string b (if c then " C1" else " C0")) evs
 
 (* a layer over the scripted socket: [mk ()] gives a fresh instance as (events of construction, feed, send);
    a "|" token starts over on a fresh instance *)
@@ -97,19 +96,19 @@ let () = read_lines (fun l ->
     layer_ops_init b (fun () ->
       let w = ref { inner = pssl_init c; dead = Z0 } in
       ([Dn (pssl_hello c)],
-       (fun chunk -> let (w', e) = feed (pssl_body (zi 190)) !w chunk in w := w'; e),
+       (fun chunk -> let (w', e) = feed pssl_body !w chunk in w := w'; e),
        (fun rel bufs -> let (s', e) = pssl_send !w.inner rel bufs in w := { !w with inner = s' }; e))) ops;
     print_endline (Buffer.contents b)
   | id :: "S" :: g :: user :: pass :: addr :: ops ->
     let b = Buffer.create 1024 in
     Buffer.add_string b id;
-    let g = z_of_string g in
+    let _ = g in
     let o s = if s = "-" then None else Some (hex_to_list s) in
     layer_ops_init b (fun () ->
       let s0 = socks_init (o user) (o pass) (hex_to_list addr) in
       let w = ref { inner = s0; dead = Z0 } in
       ([Dn (socks_greeting s0)],
-       (fun chunk -> let (w', e) = feed (socks_body g) !w chunk in w := w'; e),
+       (fun chunk -> let (w', e) = feed socks_body !w chunk in w := w'; e),
        (fun rel bufs -> let (s', e) = socks_send !w.inner rel bufs in w := { !w with inner = s' }; e))) ops;
     print_endline (Buffer.contents b)
   | id :: "H" :: g :: ops ->
